@@ -647,7 +647,8 @@ func (client *client) connectWithTimeOut() (ok bool) {
 				client.opts.ClientTopicAliasMax = convertUint16(conn.Properties.TopicAliasMaximum, client.opts.ClientTopicAliasMax)
 				client.opts.AuthMethod = conn.Properties.AuthMethod
 				client.serverReceiveMaximumQuota = client.opts.ReceiveMax
-				client.aliasMapper = make([][]byte, client.opts.ReceiveMax+1)
+				// one slot per alias 1..ServerTopicAliasMax (index 0 unused)
+				client.aliasMapper = make([][]byte, int(client.opts.ServerTopicAliasMax)+1)
 				client.opts.KeepAlive = authOpts.KeepAlive
 
 				var maxQoS byte
